@@ -131,37 +131,57 @@ def _r101(ck, prog, cfg):
                 ck.ok("R10.2", "%s:timestamp%s" % (fn.id, _tag(cfg)), "timestamp not taken from unchecked input")
     ck.floor("R10.1" + _tag(cfg), n, 2)
     # reader loop
-    ent = prog.one(W + "WalReader::entries")
-    decs = [(b, t) for b, t in ent.calls() if is_callee(t, r"WalEntry::decode$")]
-    ck.check(len(decs) == 1, "R10.1", "entries-uses-decode" + _tag(cfg), "WalReader::entries does not call WalEntry::decode exactly once", ent.where())
-    pushes = [(b, t) for b, t in ent.calls() if is_callee(t, r"Vec::<streaming::wal::WalEntry>::push$")]
+    ent0 = prog.one(W + "WalReader::entries")
+    # the loop body may live in a closure handed to std::iter::from_fn (which ends at the first None, like `None => break`)
+    bodies = [ent0]
+    for c_ in prog.children(ent0):
+        made = [t for _, t in ent0.calls() if is_callee(t, r"^std::iter::from_fn(::<.*>)?$|iter::from_fn(::<.*>)?$")]
+        if made and any(is_callee(t, r"WalEntry::decode$") for _, t in c_.calls()):
+            bodies.append(c_)
+    alld = [(g, b, t) for g in bodies for b, t in g.calls() if is_callee(t, r"WalEntry::decode$")]
+    ck.check(len(alld) == 1, "R10.1", "entries-uses-decode" + _tag(cfg), "WalReader::entries does not call WalEntry::decode exactly once", ent0.where())
+    ent = alld[0][0] if len(alld) == 1 else ent0
+    decs = [(b, t) for g, b, t in alld if g is ent]
+    pushes = [(b, t) for b, t in ent0.calls() if is_callee(t, r"Vec::<streaming::wal::WalEntry>::push$")]
     for pb, pt in pushes:
-        v = src_of_operand(ent, pt["args"][1])
+        v = src_of_operand(ent0, pt["args"][1])
         ck.check(v.kind == "call" and is_callee(v.term, r"WalEntry::decode$"), "R10.1", "entries-push-from-decode" + _tag(cfg),
-                 "WalReader::entries pushes an entry that does not come out of WalEntry::decode", ent.where(pt["ln"]),
+                 "WalReader::entries pushes an entry that does not come out of WalEntry::decode", ent0.where(pt["ln"]),
                  detail="pushed entry = decode(..).0")
+    if ent is not ent0:
+        # iterator form: what the closure yields is decode's entry
+        for b, i, st in ent.stmts():
+            if st["lhs"] == {"l": 0} and st["rv"]["k"] == "agg" and "Some" in str(st["rv"].get("n", "")) and st["rv"].get("ops"):
+                v = src_of_operand(ent, st["rv"]["ops"][0], through_calls=(r"Try>::branch$",))
+                ck.check(v.kind == "call" and is_callee(v.term, r"WalEntry::decode$"), "R10.1", "entries-push-from-decode" + _tag(cfg),
+                         "WalReader::entries yields an entry that does not come out of WalEntry::decode", ent.where(st["ln"]), detail="yielded entry = decode(..)?.0")
     if decs:
         db, dt = decs[0]
         l = dt["dest"]["l"]
+        stops = 0
         for sb in sorted(ent.reachable_blocks()):
             si = switch_info(ent, sb)
-            if si and si["kind"] == "discr" and si["place"]["l"] == l and "p" not in si["place"]:
+            src_ = si["src"] if si else None
+            direct = si and si["kind"] == "discr" and si["place"]["l"] == l and "p" not in si["place"]
+            via_try = si and si["kind"] == "discr" and src_ is not None and src_.kind == "call" and is_callee(src_.term, r"Try>::branch$") and \
+                op_local(src_.term["args"][0]) == l
+            if direct or via_try:
                 from .lib import edge_targets
-                none_t = edge_targets(ent, sb, 0)
+                none_t = edge_targets(ent, sb, 0 if direct else 1)
                 back = db in ({none_t} | ent.reach([none_t]))
+                stops += 1
                 ck.check(not back, "R10.1", "entries-stops-at-none" + _tag(cfg),
                          "after an undecodable entry WalReader::entries goes on decoding (skips damage instead of stopping)",
                          ent.where(ent.term(sb)["ln"]), detail="None edge leaves the loop")
         # offset advance
         adv = False
         for b, i, st in ent.stmts():
-            if "p" not in st["lhs"] and ent.name_of_local(st["lhs"]["l"]) == "offset" and st["rv"]["k"] == "use":
+            if st["rv"]["k"] == "use":
                 s = src_of_operand(ent, st["rv"]["a"])
                 if s.kind == "call" and is_callee(s.term, r"Option::<usize>::expect$", r"Option::<usize>::unwrap$"):
                     inner = src_of_operand(ent, s.term["args"][0])
                     if inner.kind == "call" and is_callee(inner.term, r"checked_add$"):
-                        a0 = src_of_operand(ent, inner.term["args"][0])
-                        a1 = src_of_operand(ent, inner.term["args"][1])
+                        a1 = src_of_operand(ent, inner.term["args"][1], through_calls=(r"Try>::branch$",))
                         if a1.kind == "call" and is_callee(a1.term, r"WalEntry::decode$") and a1.fields[-1:] == ("1",):
                             adv = True
         ck.check(adv, "R10.1", "entries-advance-by-consumed" + _tag(cfg),
